@@ -13,6 +13,7 @@ RULE = (
     "shapes up to 7 (quick) / 10 (thorough) nodes are enumerated, Hypothesis adds trees up to 60 nodes with sampled pairs. "
     "A pair is non-trivial when both upwards and downwards are non-empty; distinct_nontrivial counts distinct "
     "(shape, start, end) triples with that property (enumerated: by construction; generated: hashed per case)."
+    ' Also: keyword calls, unreprable nodes, deep V from the root, python -O/-OO child interpreters.'
 )
 ASSUMPTIONS = ["ancestor chains are recomputed from .parent only; all comparisons by identity"]
 
